@@ -155,5 +155,29 @@ ADDED3 = {
 }
 for _k, _v in ADDED3.items():
     CLAIMS[_k]['text'] = CLAIMS[_k]['text'] + _v
+# added after round 3 of the adversarial changes (see DESIGN.md section 9)
+ADDED4 = {
+    'C01': ' Round 3: COUNT-AGREE (the entry-count word of Flatten counts exactly the entries written), ITEM-SIZE (the divisor that turns a payload length into an item count is the wire width of the type), RESTORE-VERBATIM (Point/Rect readers do not normalise what they read).',
+    'C02': ' Round 3: FAIL-CLEAN (a Message parser that fails clears the Message before it returns the error; found and fixed TemplatedUnflatten, which left an empty field behind that aborted the next FlattenedSize()) and SIGN-EXTEND (a signed value decoded from wire bytes is not widened into an unsigned length without a sign test).',
+    'C03': ' Round 3: QUEUE-ENDS (the C gateway clears its tail pointer when the last output buffer is freed), CODEC-DIRECTION (the input path never uses the send codec and vice versa), SIGN-EXTEND in the gateway input paths.',
+    'C04': ' Round 3: NodeCreated records the match count without a payload too; a subscription with a new filter replaces the old filter for the same key; shared subscriber tables are modified in place only under an exact reference count, and a cache hit compares contents.',
+    'C05': ' Round 3: the shortcut around the full-path re-check needs both counts to be one; broadcast honours the reflect-to-self parameter; the traversal callbacks return the depth the traversal resumes from.',
+    'C06': ' Round 3: a cached subscriber table is reused only after its contents were compared; the existing-subscription lookup and the insert use the same (normalised) key.',
+    'C07': ' Round 3: results that may be null (matcher of a ban pattern, node of a name filter) are tested before use; PROGRESS also treats locals that are only recomputed from loop-invariant values as derived inputs and reports a cycle that changes nothing it tests.',
+    'C08': ' Round 3: C-CACHED (the C codecs keep their cached lengths and offsets consistent: every fresh output buffer is sent from the same offset, a renamed field stores the length of the new name).',
+    'C10': ' Round 3: IncrementRefCount is one atomic increment (no load-then-store), SetRef references before it releases, and the pool frees a slab only when none of its objects is in use.',
+    'C11': ' Round 3: DRAIN (DispatchCallbacks takes replies until none is left, because a signal is sent only when the queue was empty), EAGER-INIT (objects both threads reach are constructed before the internal thread exists), EINTR (an interrupted wait is not an error).',
+    'C12': ' Round 3: ADVANCE-ALWAYS (the reader moves past a chunk whether it accepts it or not), HOLD-PACKET (the pending packet is forgotten only after its Write), PACK-WIDTH (the packet-id counter stays inside its bit field).',
+    'C13': ' Round 3: INDEX-TO-ALL (every existing subscriber, the originator included, is told about an index change), FULL-SCAN (index searches by name look at every position), a push of subscription Messages is deferred inside a batch only.',
+    'C14': ' Round 3: DEFAULT-SUBSTITUTE (the assumed default of a value filter is substituted for the missing value and then processed exactly like a found value).',
+    'C15': ' Round 3: FIRST-POSITION (IsRegexToken is asked about the position the character really has), PER-ITERATION (range bounds and escape state are not carried from one clause / character to the next except where the dialect says so).',
+    'C16': ' Round 3: HEAD-TAIL (where the ring is re-based the tail index is computed from the new head index).',
+    'C17': ' Round 3: SELF-ALIAS is path-based (the argument-aliases-own-buffer test is found true or false on every path to a contents-keeping buffer move).',
+    'C18': ' Round 3: a failed try leaves no trace in the tables, COUNT-PAIR (per-thread and total write counts move together), CHRONO-UNIT (durations handed to the condition variable are microseconds).',
+    'C19': ' Round 3: each client waits on its own condition, a client\'s older batch is dispatched before its newer one, a thread is marked available before the next dispatch decision.',
+    'C20': ' Round 3: ROOTS (the server asks and pulses every root node it owns on every pass, dependent only on the node existing), LINKS unlink-complete (an unlink clears both neighbours\' links and the list ends).',
+}
+for _k, _v in ADDED4.items():
+    CLAIMS[_k]['text'] = CLAIMS[_k]['text'] + _v
 for _k in CLAIMS:
     CLAIMS[_k]['text'] = CLAIMS[_k]['text'] + ' Robustness: every condition is read independently of its spelling; the thorough tier re-runs the rules on the facts with all comparisons exchanged and all negations respelled and requires the same verdict, and requires silence on the behaviour-preserving patches under equivalents/.'
